@@ -506,7 +506,7 @@ pub fn run(args: &Args) -> i32 {
                         order_idx = Some(o);
                     }
                     if rng.chance(1, 3) {
-                        q.limit = if rng.chance(4, 5) { Some(if rng.chance(1, 12) { 0 } else { rng.range(1, (ids.len() as i64 + 3).max(1)) }) } else { None };
+                        q.limit = if rng.chance(4, 5) { Some(if rng.chance(1, 6) { 0 } else { rng.range(1, (ids.len() as i64 + 3).max(1)) }) } else { None };
                         q.offset = if rng.chance(1, 2) { Some(rng.range(0, (ids.len() as i64 + 2).max(1))) } else { None };
                     }
                     let seq = order_idx.as_ref().map(|o| {
